@@ -5,8 +5,10 @@ import NeumannModel.TwoPC.LemmasRecovery
   model in `Recovery.lean`).  ONLY theorems and their non-vacuity examples; helpers are in
   `LemmasRecovery.lean`.
 
-  All of this is OUTSIDE property C03's quantifier (C03 speaks of message interleavings and timeouts,
-  not of coordinator restarts or partition merges).  The theorems quantify over every state reachable
+  Coordinator restarts are what "the decision never changes afterwards" and "coordinator timeouts
+  firing at any point" have to survive: `PropsRestart.lean` states the property over the alphabet
+  `ReachK` (these events plus checkpoint / restore cycles, at any clock value), using the invariants
+  proved here.  Partition merges (`force_resolve`) stay outside.  The theorems quantify over every state reachable
   from an arbitrary initial configuration through ANY finite sequence of events of the extended
   alphabet `ReachR`: every event of C03's alphabet (`Reach`), plus — at any point, any number of
   times — a coordinator restart (`recover()` on the pending map followed by the re-send of every
